@@ -13,6 +13,7 @@ import (
 func main() {
 	hk.Main("C05", runC05, map[string]hk.Gosyncer{
 		"quicvarint": syncVarintConsts,
+		"h2consts":   syncH2Consts,
 	})
 }
 
@@ -22,5 +23,7 @@ func runC05(r *hk.Run) {
 	r.CheckFn = "c05_check"
 	r.Rule = "QUIC varints: every length boundary, random values of every size class, every non-minimal form, every truncation. Non-trivial: value > 63 or non-minimal/truncated encoding. Distinct by canonical input."
 	rng := hk.NewRand(r.Seed)
-	runVarints(r, rng)
+	runVarints(r, rng.Fork())
+	runH2Read(r, rng.Fork())
+	runH2Write(r, rng.Fork())
 }
